@@ -2,7 +2,7 @@
    The faithful model REFUTES the property: the batch's entries are separate writes and
    recovery accepts every checksum-valid prefix.  Known finding C08-batch-not-crash-atomic
    (design level: the repository's own docs promise only in-process atomicity). *)
-From W Require Import model.Base model.Engine model.EngineCfg spec.Queue spec.Crash proofs.CrashP.
+From W Require Import model.Base model.Engine model.EngineCfg spec.Queue spec.Crash proofs.EngineWF proofs.EngineW proofs.EngineMain proofs.EngineDisk proofs.CrashP proofs.EngineCrash.
 
 Theorem c08_refuted : exists c s t es j, (j <= length es)%nat /\
     stream_of (batch_crash c s t es j) (t_id t) <> stream_of (batch_crash c s t es 0) (t_id t) /\
@@ -14,6 +14,18 @@ Theorem c08_outside_known : forall c s t e j, (j <= 1)%nat ->
   batch_crash c s t [e] j = batch_crash c s t [e] 0 \/ batch_crash c s t [e] j = batch_crash c s t [e] 1.
 Proof. exact single_entry_batch_atomic. Qed.
 
+(* the strongest true statement next to the refutation: after ANY admissible restart-free history
+   (any mode), what is recovered of an interrupted admissible batch is ALWAYS a prefix of it
+   (never a non-prefix subset, never a reordering, never a foreign entry), behind the intact
+   acknowledged stream *)
+Theorem c08_only_prefixes : forall (c : Cfg) (m : mode) (be : backend) (ops : list op) (t : topic) (es : list entry) (j : nat),
+  cfg_ok c -> Forall (op_ok c) ops ->
+  N.of_nat (length (offered_all ops)) <= u64_max -> sum_len (offered_all ops) <= u64_max ->
+  batch_ok c t es ->
+  let s := exec (env_of c m be) init ops in
+  exists k, (k <= length es)%nat /\ stream_of (batch_crash c s t es j) (t_id t) = stream_of s (t_id t) ++ firstn k es.
+Proof. exact crash_only_prefixes_reachable. Qed.
+
 Theorem c08_acceptor_means : forall acked batch rec,
   c08_ok acked batch rec = true <-> (outs_are rec acked = true \/ outs_are rec (acked ++ batch) = true).
 Proof. exact c08_ok_spec. Qed.
@@ -24,3 +36,10 @@ Check c08_refuted : exists c s t es j, (j <= length es)%nat /\
 Print Assumptions c08_refuted.
 Print Assumptions c08_outside_known.
 Print Assumptions c08_acceptor_means.
+Check c08_only_prefixes : forall (c : Cfg) (m : mode) (be : backend) (ops : list op) (t : topic) (es : list entry) (j : nat),
+  cfg_ok c -> Forall (op_ok c) ops ->
+  N.of_nat (length (offered_all ops)) <= u64_max -> sum_len (offered_all ops) <= u64_max ->
+  batch_ok c t es ->
+  let s := exec (env_of c m be) init ops in
+  exists k, (k <= length es)%nat /\ stream_of (batch_crash c s t es j) (t_id t) = stream_of s (t_id t) ++ firstn k es.
+Print Assumptions c08_only_prefixes.
